@@ -25,6 +25,9 @@ site: http://bugseng.com/products/ppl/ . */
 #define PPL_CO_Tree_inlines_hh 1
 
 #include <cstddef>
+#ifdef BUGSENG_PPL_VERIF
+#include "verif_hooks.hh"
+#endif
 
 namespace Parma_Polyhedra_Library {
 
@@ -329,6 +332,9 @@ CO_Tree::is_greater_than_ratio(const dimension_type numer,
 
 inline void
 CO_Tree::rebuild_smaller_tree() {
+#ifdef BUGSENG_PPL_VERIF
+  PPL_VERIF_REACH(COTREE_SMALLER);
+#endif
   PPL_ASSERT(reserved_size > 3);
   CO_Tree new_tree;
   new_tree.init(reserved_size / 2);
